@@ -259,6 +259,8 @@ pub struct GenCfg {
 	pub weird_names: bool,
 	/// names, field names and symbols are long random identifiers (C08 table coverage)
 	pub long_names: bool,
+	/// at most one union per schema may be padded to 65-100+ branches
+	pub wide_unions: bool,
 }
 
 impl Default for GenCfg {
@@ -273,6 +275,7 @@ impl Default for GenCfg {
 			allow_unknown_logical: true,
 			weird_names: true,
 			long_names: false,
+			wide_unions: true,
 		}
 	}
 }
@@ -300,11 +303,12 @@ pub struct SchemaGen<'t, 'd> {
 	collecting: Vec<Vec<String>>,
 	/// fixed(12)+duration definitions: the crate selects/reports them as "Duration"
 	duration_names: HashSet<String>,
+	wide_done: bool,
 }
 
 impl<'t, 'd> SchemaGen<'t, 'd> {
 	pub fn new(tape: &'t mut Tape<'d>, cfg: GenCfg) -> Self {
-		SchemaGen { tape, cfg, nodes: 0, used_names: HashSet::new(), closed: Vec::new(), open: Vec::new(), forbid_open: false, direct: HashMap::new(), collecting: Vec::new(), duration_names: HashSet::new() }
+		SchemaGen { tape, cfg, nodes: 0, used_names: HashSet::new(), closed: Vec::new(), open: Vec::new(), forbid_open: false, direct: HashMap::new(), collecting: Vec::new(), duration_names: HashSet::new(), wide_done: false }
 	}
 
 	pub fn gen(&mut self) -> MSchema {
@@ -671,6 +675,25 @@ impl<'t, 'd> SchemaGen<'t, 'd> {
 		if branches.is_empty() {
 			branches.push(MSchema::plain(MType::Null));
 		}
+		// rarely a *wide* union: 64-100 small fixed types in front, so that the real branches get
+		// discriminants >= 64, whose zig-zag varint needs two bytes (an exhausted tape never draws this)
+		// (decided from what was drawn anyway, so that tapes recorded before keep their meaning)
+		if self.cfg.wide_unions && !self.wide_done && branches.len() >= 4 && crate::tape::fnv64(names.iter().cloned().collect::<std::collections::BTreeSet<_>>().into_iter().collect::<Vec<_>>().join("|").as_bytes()) % 3 == 0 {
+			self.wide_done = true;
+			let pad = 64 + self.tape.below(37);
+			let mut front: Vec<MSchema> = Vec::with_capacity(pad + branches.len());
+			for i in 0..pad {
+				let mut name = format!("Wide{i}");
+				while self.used_names.contains(&name) || names.contains(&name) {
+					name.push('w');
+				}
+				self.used_names.insert(name.clone());
+				self.closed.push(name.clone());
+				front.push(MSchema::plain(MType::Fixed { name, size: i % 3 }));
+			}
+			front.append(&mut branches);
+			branches = front;
+		}
 		MSchema::plain(MType::Union(branches))
 	}
 
@@ -778,6 +801,9 @@ pub fn features(root: &MSchema) -> SchemaFeatures {
 			MType::Union(bs) => {
 				if bs.iter().filter(|b| !matches!(b.ty, MType::Null)).count() >= 2 {
 					f.unions_multi += 1;
+				}
+				if bs.len() > 64 {
+					f.kinds.insert("union-wider-than-64");
 				}
 				bs.iter().for_each(|b| walk(b, depth + 1, open, f));
 			}
